@@ -57,8 +57,11 @@ TQuiescent == Step("quiescent") /\ UNCHANGED <<avars, scen, side, fwd, caps, has
    ELSE IF hascap /\ \E i \in 1..Len(fwd) : Count(caps, fwd[i]) # Count(fwd, fwd[i]) THEN Flag("C15/capture-missing")
    ELSE IF hascap /\ Len(caps) # Len(fwd) THEN Flag("C15/capture-missing")
    ELSE NoFlag
+\* proxy() returns on any error of either socket.  The statement quantifies over arrivals, shapes and interleavings, not over
+\* peers that go away: once a peer has closed its connection (a reply to it may be in flight and unroutable) the end of the
+\* proxy is not judged (recorded in DESIGN.md as an observation outside the statements)
 TEnded == Step("proxy_ended") /\ UNCHANGED <<avars, scen, side, fwd, caps, hascap>> /\ ended' = TRUE /\
-   IF dead THEN NoFlag ELSE Flag("C15/proxy-stopped")
+   IF dead \/ DOMAIN cut # {} THEN NoFlag ELSE Flag("C15/proxy-stopped")
 TPanic == Step("panic") /\ UNCHANGED <<avars, scen, side, fwd, caps, hascap, ended>> /\ Flag("C03/panic")
 Ignored == {"observed", "peer_part", "peer_bytes", "attach_call", "attach_pending", "released", "proxy_pending", "end", "pipe"}
 TIgnore == l <= NRec /\ E.ev \in Ignored /\ l' = l + 1 /\ UNCHANGED <<avars, scen, side, fwd, caps, hascap, ended>> /\ NoFlag
